@@ -5,6 +5,7 @@ From Coq Require Import List NArith ZArith Bool Lia.
 From Tele Require Import Gen.Consts Model.FileConc Proofs.FileConcBase.
 Import ListNotations.
 Open Scope N_scope.
+Set Default Proof Using "Type".
 
 Section Inv.
 Variable bucket : name -> N.
@@ -287,7 +288,7 @@ Lemma frame_upd : forall j f off g r0, (forall r, r_off (g r) = r_off r) ->
 Proof.
   intros j f off g r0 Sg1 E0 Cond o r E Ow U. cbn. split; [|exact U].
   destruct (N.eq_dec o off) as [->|Ne].
-  - exfalso. rewrite E0 in E. inversion E; subst. destruct Cond; tauto.
+  - exfalso. rewrite E0 in E. inversion E; subst. destruct Cond as [X|X]; [congruence|exact (X U)].
   - rewrite find_rec_upd_other by assumption. exact E.
 Qed.
 
@@ -389,7 +390,7 @@ Proof. intros f f' b o Ev [->|I]; [left; reflexivity|right; eapply in_ev; eauto]
 Lemma suf_ev : forall f f' b o, evolve f f' -> inch f b o -> suf o (f_chain f' b) = suf o (f_chain f b).
 Proof.
   intros f f' b o Ev I. destruct (ev_chain _ _ Ev b) as (ext & -> & X). apply suf_app_fresh.
-  intro Io. destruct (X o Io) as [Nz U]. destruct I as [->|I]; [tauto|exact (U b I)].
+  intro Io. destruct (X o Io) as [Nz U]. destruct I as [->|I]; [exact (Nz eq_refl)|exact (U b I)].
 Qed.
 
 Lemma named_other_ev : forall f f' nm x, evolve f f' -> named_other f nm x -> named_other f' nm x.
@@ -643,6 +644,7 @@ Proof. intros. unfold base. auto. Qed.
 Ltac sg := cbn [fst snd post].
 
 Section Steps.
+Set Default Proof Using "All".
 Variables (me : nat) (f : file) (t : thread).
 Hypothesis W : wf_shared f.
 Hypothesis VB : forall r, In r (f_recs f) -> r_val r <= MAX64.
@@ -918,6 +920,7 @@ Proof.
 Qed.
 
 End Steps.
+Set Default Proof Using "Type".
 
 (* ------------------------------------------------------------------ *)
 (* the global invariant                                                  *)
@@ -977,7 +980,7 @@ Proof. intros. unfold sum_to at 1. cbn [fold_right fst snd]. fold (sum_to c l). 
 Lemma sum_to_zero : forall c l, Forall (fun ck => fst ck <> c) l -> sum_to c l = 0.
 Proof.
   induction l as [|a l IH]; cbn; intro F; [reflexivity|]. inversion F; subst.
-  destruct (fst a =? c) eqn:Q; [apply N.eqb_eq in Q; tauto|auto].
+  destruct (fst a =? c) eqn:Q; [apply N.eqb_eq in Q; contradiction|auto].
 Qed.
 
 Lemma total_zero : forall c ts, (forall t, In t ts -> sum_to c (t_succ t) = 0) -> total c ts = 0.
